@@ -125,10 +125,13 @@ impl TimerQueue {
     }
 
     pub(super) fn next(&self) -> Option<SimTime> {
+        // Slots whose timers were all dropped or reset stay in the queue
+        // until they are bumped, so skip them instead of only looking at
+        // the front slot.
         self.pending
             .borrow()
-            .front()
-            .filter(|slot| !slot.entrys.borrow().is_empty())
+            .iter()
+            .find(|slot| !slot.entrys.borrow().is_empty())
             .map(|s| s.time)
     }
 
